@@ -28,7 +28,9 @@ CHECKS = {
         'termination within the budget. KNOWN FINDING F14 (the property is false of the unchanged code; machine-checked: C02_verdict_refuted_F14, C02_F14_witness - a 23-state look-ahead machine for which the model of '
         'run_prover reports a halt at slot (16,0) while the real machine halts at (14,0) after 79 steps): an inferred rule can be invalid at its last application '
         '(guard count > |diff| too weak); runs whose verdict rests on such an application (found by single-application replays at the end of every application) are printed as KNOWN-FINDING when the '
-        'faithful model performs the same application, VIOLATION otherwise.',
+        'faithful model performs the same application, VIOLATION otherwise. KNOWN FINDING F16 (a zero pushed onto an empty span during a rule demonstration is not recorded: '
+        'rules proved while walking away from a tape end are matched where that side is not empty; 22-state witnesses with a wrong spin-out and a wrong halt verdict) is attributed by a '
+        'verified replay to the claimed tape plus the missing zeros.',
    note=COMMON_NOTE + 'Theorems closed under the global context. u64 overflow panics of steps/rulapp (46+3 named machines at 10^4 cycles) are modelled and agree.',
    tech='Rocq/Coq conditional soundness theorems + verified replay checker + model/implementation correspondence (with application traces) + real-run oracle'),
  'C03': dict(cat='other', sec='DESIGN.md §6 C03, §12',
